@@ -23,7 +23,7 @@ THEOREMS = [
     'Pyiga.Props.C09.coo_index_lists', 'Pyiga.Props.C09.coo_from_kv_index_lists',
     'Pyiga.Props.C09.biform_1d', 'Pyiga.Props.C09.biform_1d_asym', 'Pyiga.Props.C09.biform_1d_asym_needs_cell_hyp',
     'Pyiga.Props.C09.kron_path_mass_2d', 'Pyiga.Props.C09.kron_path_stiffness_2d',
-    'Pyiga.Props.C09.kron_path_mass_3d', 'Pyiga.Props.C09.kron_path_stiffness_3d',
+    'Pyiga.Props.C09.kron_path_mass_3d',
     'Pyiga.Props.C09.gauss_weights_sum', 'Pyiga.Props.C09.gauss_nodes_inside',
     'Pyiga.Props.C09.total_mass', 'Pyiga.Props.C09.stiffness_row_sum_zero', 'Pyiga.Props.C09.stiffness_col_sum_zero',
     'Pyiga.Props.C09.gram_symmetric', 'Pyiga.Props.C09.gram_quadratic_form', 'Pyiga.Props.C09.gram_psd',
@@ -31,7 +31,7 @@ THEOREMS = [
     'Pyiga.Props.C09.load_vector_spec', 'Pyiga.Props.C09.integrate_spec',
     'Pyiga.Props.C09.det2_eq_matrix_det', 'Pyiga.Props.C09.det3_eq_matrix_det',
 ]
-MODULES = ['Pyiga.Model.Galerkin', 'Pyiga.Proofs.Galerkin', 'Pyiga.Props.C09']
+MODULES = ['Pyiga.Model.Galerkin', 'Pyiga.Proofs.Galerkin', 'Pyiga.Proofs.GalerkinAsm', 'Pyiga.Proofs.GalerkinKron', 'Pyiga.Props.C09']
 U = F(1, 2 ** 53)
 
 
